@@ -73,6 +73,32 @@ class SpyRNG(np.random.Generator):
         return self._log("integers", super().integers(*a, **k), a)
 
 
+class FaultRNG(SpyRNG):
+    """Fault injection at the generator interface: the k-th variate request (uniform / random / normal ...) raises the error that scipy's generic
+    discrete quantile search raises sporadically in the library's custom distributions ('updating stopped, endless loop'), so that a generation
+    breaks off mid-way at a chosen point instead of once in a few hundred draws."""
+
+    def __init__(self, seed, fail_at):
+        super().__init__(seed)
+        self.fail_at = fail_at
+        self.requests = 0
+        self.fired = False
+
+    def _log(self, kind, r, args):
+        self.requests += 1
+        if self.requests == self.fail_at:
+            self.fired = True
+            raise RuntimeError("updating stopped, endless loop (injected by the harness)")
+        return super()._log(kind, r, args)
+
+    def choice(self, *a, **k):
+        self.requests += 1
+        if self.requests == self.fail_at:
+            self.fired = True
+            raise RuntimeError("updating stopped, endless loop (injected by the harness)")
+        return super().choice(*a, **k)
+
+
 class ScriptExhausted(Exception):
     pass
 
